@@ -6,8 +6,8 @@ package race
 
 import (
 	"fmt"
-	"io"
 	"golang.org/x/exp/slog"
+	"io"
 	"os"
 	"path/filepath"
 	"sync"
